@@ -87,7 +87,7 @@ def run_property(prop_id, tier='quick', seed=0, replay=None):
 
 def _run(mod, prop_id, tier, seed, replay, work, t0):
     module = getattr(mod, 'RUN_MODULE', f'PV.Run.{prop_id}_run')
-    info = build.build(prop_id, work, getattr(mod, 'COQ_TARGETS', None))
+    info = build.build(prop_id, work, getattr(mod, 'COQ_TARGETS', None), getattr(mod, 'KERNELS', []))
     broken = list(info['broken'])
 
     rng = random.Random(seed)
